@@ -39,7 +39,10 @@ def corr(pattern, d):
     return R
 
 
-def make_table(layout, pattern, n, rs):
+CONSTS = (3.25, 0.0, 0, -7.5)      # the value of a constant column (float zero and integer zero are constants like any other)
+
+
+def make_table(layout, pattern, n, rs, const=3.25):
     from scipy import stats
     d = len(layout)
     R = corr(pattern, d)
@@ -49,7 +52,7 @@ def make_table(layout, pattern, n, rs):
     out = {}
     for j, kind in enumerate(layout):
         if kind == 'constant':
-            out[cols[j]] = np.full(n, 3.25)
+            out[cols[j]] = np.full(n, const)
         elif kind == 'integer':                 # an integer-typed column (discretised gamma, many ties)
             out[cols[j]] = np.rint(stats.gamma(2.0, 0.0, 25.0).ppf(U[:, j])).astype(np.int64)
         elif kind == 'bimodal':
@@ -102,7 +105,15 @@ def _run(job):
     d = len(layout)
     cols = NAMES[:d]
     rs = np.random.RandomState(seed)
-    df, R = make_table(layout, case['pattern'], ntrain, rs)
+    const = CONSTS[seed % 4]
+    big = bool(case.get('big'))
+    if big:                 # a table of several thousand rows
+        ntrain = int(case['big'])
+    df, R = make_table(layout, case['pattern'], ntrain, rs, const)
+    if big or seed % 7 == 3:
+        # the rows of a table come in some order - here sorted by the first non-constant column; the fit is a function of the set of rows
+        key = [c for c, k in zip(cols, layout) if k != 'constant'][0]
+        df = df.sort_values(key, ascending=bool(seed % 2), kind='stable')
     n = case['n'] if case['n'] < 1000 else nsample
     rec = {'exact': [], 'bands': [], 'err': '', 'mle': []}
     stalled = set()
@@ -139,7 +150,7 @@ def _run(job):
             rec['exact'].append('missing-values')
         rec['infinite'] = int(np.isinf(s.to_numpy(dtype=float)).sum())
         for j, kind in enumerate(layout):
-            if kind == 'constant' and not np.all(s[cols[j]].to_numpy() == 3.25):
+            if kind == 'constant' and not np.all(s[cols[j]].to_numpy() == const):
                 rec['exact'].append('constant-column-not-reproduced')
         if n < 1000 or rec['exact']:
             return rec
@@ -220,7 +231,13 @@ def run(ctx):
     clist = [cases[k] for k in sorted(cases)]
     for c in clist:
         c['layout'] = list(c['layout'])
-    jobs = [(c, ctx.seed * 13 + i, ntrain, nsample) for i, c in enumerate(clist)]
+    # three requests with tables of several thousand rows that arrive sorted by their first column (closed-form marginals, so the
+    # size costs little): nothing in the property depends on the number or on the order of the rows
+    for lay, pat, form, rows in ((['gaussian', 'gaussian', 'gaussian'], 'ar', 'instance', 6000 if quick else 24000),
+                                 (['gaussian', 'uniform', 'constant'], 'equi-positive', 'dict', 5000 if quick else 12000),
+                                 (['timestamp', 'gaussian'], 'equi-negative', 'class', 2600 if quick else 5200)):
+        clist.append({'layout': lay, 'pattern': pat, 'form': form, 'n': 1000, 'big': rows})
+    jobs = [(c, ctx.seed * 13 + i + (1 if c.get('big') and ((ctx.seed * 13 + i) // 2) % 2 == 0 else 0) * 2, ntrain, nsample) for i, c in enumerate(clist)]
     jobs_sorted = sorted(range(len(jobs)), key=lambda i: -(len(jobs[i][0]['layout']) * (3 if jobs[i][0]['form'] in ('default', 'dict') else 1)))
     with Pool(16) as pool:
         res_sorted = pool.map(_run, [jobs[i] for i in jobs_sorted], chunksize=1)
@@ -229,7 +246,7 @@ def run(ctx):
         res[i] = r_
     recs, meta = [], []
     for c, r_ in zip(clist, res):
-        key = '%s|%s|%s|n=%d' % ('+'.join(c['layout']), c['pattern'], c['form'], c['n'])
+        key = '%s|%s|%s|n=%d%s' % ('+'.join(c['layout']), c['pattern'], c['form'], c['n'], '|rows=%d,sorted' % c['big'] if c.get('big') else '')
         ctx.case(key)
         if r_['err']:
             ctx.violation('C01|%s|raised-%s|%s' % (c['form'], r_['err'].split(' ')[0], c['pattern']), 'fit/sample raised %s for %s' % (r_['err'], key), c)
